@@ -215,7 +215,7 @@ func (b Bounds) edgeReqs(eco string) []string {
 //
 //	singles quick:    [0,f) for f in ladder, [0,nofix)
 //	singles thorough: also [i,f) and [i,nofix) for all ladder versions i<f
-//	pairs quick:      {[0,f),[0,f')} and {[0,f),[f,f')} with f' = next ladder version after f
+//	pairs quick:      {[0,f),[0,f')} (not in the Lite bounds) and {[0,f),[f,f')} with f' = next ladder version after f
 //	                  (two open vulns with different fixes / a second vuln that starts where the first is fixed)
 //	pairs thorough:   {[0,f),[0,f')} and {[0,f),[f,f')} for every f<f' and f' = nofix
 func (b Bounds) VulnSets(pkg string) [][]Vuln {
@@ -241,7 +241,7 @@ func (b Bounds) VulnSets(pkg string) [][]Vuln {
 			for _, f2 := range l[i+1:] {
 				pair(single("0", f), single("0", f2))
 			}
-		} else if i+1 < len(l) {
+		} else if i+1 < len(l) && !b.Lite {
 			pair(single("0", f), single("0", l[i+1]))
 		}
 		if b.Thorough {
@@ -319,7 +319,7 @@ func cat(a [][]Vuln, bs ...[][]Vuln) [][]Vuln {
 //	solo     manifest {d1: R}; d1 publishes S; vulns on d1
 //	         S in Subsets(ladder, MaxVers) x R in manifestReqs x VulnSets(d1) x CfgSets(d1)
 //	chainT   manifest {d1: 1.0.0}; d1@1.0.0 -> t1@E; t1 publishes T; vulns on t1
-//	         T in Subsets(ladder, MaxVers) x E in edgeReqs x VulnSets(t1) x CfgSets(d1,t1)
+//	         T in Subsets(ladder, MaxVers) (Lite quick: first 4 ladder versions) x E in edgeReqs x VulnSets(t1) x CfgSets(d1,t1)
 //	chainD   manifest {d1: R}; d1 publishes D; t1 publishes {1.0.0,2.0.0}; d1's i-th version pins t1@1.0.0 if bit i
 //	         of mask is set, else t1@2.0.0; vulns: {t1 [0,2.0.0)}, {t1 [0,nofix)}, {t1 [0,2.0.0), t1 [2.0.0,nofix)},
 //	         and for every f in D: {t1 [0,2.0.0), d1 [0,f)}
@@ -380,7 +380,11 @@ func (b Bounds) GenFixShape(eco, shape string, emit func(*Case)) {
 	// chainT
 	vsT1 := b.VulnSets("t1")
 	cfgDT := b.CfgSets([]string{"d1", "t1"})
-	for _, t := range subs {
+	tsubs := subs
+	if b.Lite && !b.Thorough {
+		tsubs = Subsets(l4, b.MaxVers)
+	}
+	for _, t := range tsubs {
 		if shape != "chainT" {
 			break
 		}
@@ -951,7 +955,7 @@ var OriginShapes = []string{"origin-direct", "origin-transitive", "origin-profil
 //	                    inactive) and manages an unrelated published artifact m1; d1@1.0.0 -> t1@v; t1 publishes T; vulnerable t1
 //	                    (the override has to ADD a project-level dependencyManagement section)
 //	                    T in Subsets(ladder, min(MaxVers,2)) x v in T x {profile-management, profile-inactive-management} x VulnSets(t1) x CfgSets(d1,t1)
-//	quick drops the {[0,f),[0,f')} pairs from VulnSets in all shapes.
+//	quick drops the {[0,f),[0,f')} pairs from VulnSets in all shapes (with the Lite bounds: every two-record set).
 func (b Bounds) GenOriginShape(shape string, emit func(*Case)) {
 	l := b.Ladder
 	subs := Subsets(l, min(b.MaxVers, 2)) // two published versions express "same" and "different" declarations
@@ -962,7 +966,7 @@ func (b Bounds) GenOriginShape(shape string, emit func(*Case)) {
 		}
 		var out [][]Vuln
 		for _, vs := range in {
-			if len(vs) == 2 && vs[1].Introduced == "0" {
+			if len(vs) == 2 && (vs[1].Introduced == "0" || b.Lite) {
 				continue
 			}
 			out = append(out, vs)
